@@ -309,6 +309,26 @@ def r11_4(model: Model, rep: Report, classes) -> None:
             rep.refuted("R11.4", cons, "; ".join(sorted(set(ls))[:2]), loc(canon))
         else:
             rep.proven("R11.4", cons, loc=loc(canon))
+    # the constructors / simplifiers the canonicaliser ends in (Sum.safe(simplify=True) -> Sum.simplify, Product.safe): what they build is part
+    # of the canonical form
+    for cname, mname, types_ in (("Sum", "simplify", {}), ("Sum", "safe", {"expression": ("cls", EXPR), "ranges": ("iter", ("cls", f"{DSL}.Variable"))}),
+                                 ("Product", "safe", {"expressions": ("iter", ("cls", EXPR))})):
+        K = model.cls(f"{DSL}.{cname}")
+        f = K.find_method(mname)
+        if f is None:
+            continue
+        ev = Evaluator(model, prim_methods={"_new", "get_base"})
+        args = {k_: typed(ev, k_, t_) for k_, t_ in types_.items()}
+        if f.is_classmethod or f.is_staticmethod:
+            rets = return_paths(ev.run(f, args, self_term=("ref", K.qname)) if f.is_classmethod else ev.run(f, args))
+        else:
+            slf = typed(ev, "self", ("cls", K.qname))
+            rets = return_paths(ev.run(f, args, self_term=slf))
+        ls = []
+        for r in rets:
+            ls += leaks(ev, r.value, r.conds)
+        cons = construct(f, "hash-order")
+        (rep.refuted if ls else rep.proven)("R11.4", cons, "; ".join(sorted(set(ls))[:2]), loc(f))
     # ordering helpers used to build distributions
     for q in (f"{DSL}._upgrade_ordering", f"{DSL}._sorted_variables", f"{DSL}.ensure_ordering", f"{DSL}._sort_interventions"):
         f = model.func(q)
